@@ -454,18 +454,17 @@ End L9.
 Section Upper.
 Variable s0 : sess.
 
-Lemma ncb_handle_disconnect_nodrain s : s_in_buf s = [] -> cfg_ok (s_cfg s) -> Ncb s0 s ->
-  Ncb s0 (handle_disconnect_state drain s).
+Lemma ncb_disconnect_now s : cfg_ok (s_cfg s) -> Ncb s0 s -> Ncb s0 (disconnect_now s).
 Proof.
-  intros Hb Hc H. unfold handle_disconnect_state. cbv zeta.
-  match goal with |- Ncb _ (upd_chan (drain ?x) _ _ _ _) => set (s3 := x) end.
-  assert (H3b : s_in_buf s3 = []).
-  { unfold s3. repeat match goal with |- context [if ?c then _ else _] => destruct c end; exact Hb. }
-  rewrite (drain_empty s3 H3b). apply ncb_upd_chan. unfold s3.
+  intros Hc H. unfold disconnect_now. cbv zeta. apply ncb_upd_chan.
   match goal with |- context [if ?d then log_cb s CbOnLogout else s] => destruct d end;
     cbn [s_cfg log_cb upd_logs];
     (destruct (cfg_ok_disconnect _ Hc) as [Hp|Hn]; [unfold rs_free in Hp | rewrite Hn]; ncb_go).
 Qed.
+
+Lemma ncb_handle_disconnect_nodrain s : s_in_buf s = [] -> cfg_ok (s_cfg s) -> Ncb s0 s ->
+  Ncb s0 (handle_disconnect_state drain s).
+Proof. intros Hb Hc H. rewrite (hd_no_buffer s Hb). apply ncb_disconnect_now; assumption. Qed.
 
 Lemma ncb_set_state_nodrain s next : s_in_buf s = [] -> cfg_ok (s_cfg s) -> Ncb s0 s -> Ncb s0 (set_state s next).
 Proof.
@@ -545,5 +544,217 @@ Proof.
   - destruct (is_connected (s_st s)); [|exact H]. apply ncb_send_logon; [left; exact He | exact H].
 Qed.
 End Upper.
+
+(* ---------- the same through drainMessageIn: what is buffered is handled first, in the state the session is still in ---------- *)
+(* The kept messages stay in the class m_ok through every handler (no recovery invariant needed: a handler only ever adds the
+   message it processes to the stash). *)
+Lemma olist_stash_of st c e : olist st = stash_of_st (SResend st c e).
+Proof. reflexivity. Qed.
+
+Lemma process_reject_all_ok s m r s1 next : process_reject s m r = (s1, next) ->
+  all_ok (stash_of_st (s_st s)) -> m_ok m -> all_ok (stash_of_st next).
+Proof.
+  intros E Ha Hm.
+  destruct r as [recv ex|recv ex| | |reason tag bus];
+    try (rewrite (stash_of_not_resend next); [intros k x []|]; eapply process_reject_other; [|exact E]; intros; discriminate).
+  cbn [process_reject] in E. unfold stash_of_st in Ha.
+  destruct (unwrap_pending (s_st s)) as [| | | | | st c e | j] eqn:Eu.
+  6: { inv E. rewrite stash_of_resend. cbn [olist]. intros k x Hx.
+       apply stash_insert_in in Hx as [Hx|[Hx _]]; [inv Hx; exact Hm|]. destruct st as [l|]; [exact (Ha k x Hx) | destruct Hx]. }
+  all: destruct (do_target_too_high s recv ex) as [y ny] eqn:Ed; unfold do_target_too_high in Ed;
+    destruct (send_resend_request_shape _ _ _ _ _ Ed) as (_ & c0 & -> & _); inv E;
+    rewrite stash_of_resend; cbn [olist]; intros k x Hx;
+    apply stash_insert_in in Hx as [Hx|[[] _]]; inv Hx; exact Hm.
+Qed.
+
+Lemma in_session_all_ok s m s1 next : in_session_fix_msg_in s m = (s1, next) ->
+  all_ok (stash_of_st (s_st s)) -> m_ok m -> all_ok (stash_of_st next).
+Proof.
+  intros E Ha Hm. destruct (in_session_char s m s1 next E) as [Hnr|(recv & _ & _ & Ep)].
+  - rewrite (stash_of_not_resend next Hnr). intros k x [].
+  - eapply process_reject_all_ok; eassumption.
+Qed.
+
+Lemma drain_all_ok : forall fuel s l next s2 l' next2 still,
+  resend_drain fuel s l next = (s2, l', next2, still) ->
+  all_ok l -> all_ok (stash_of_st (s_st s)) -> all_ok (stash_of_st next) ->
+  all_ok l' /\ all_ok (stash_of_st next2).
+Proof.
+  induction fuel as [|f IH]; intros s l next s2 l' next2 still E Hl Hs Hn; cbn [resend_drain] in E.
+  - inv E. split; assumption.
+  - destruct (stash_take (s_tgt s) l) as [[m l1]|] eqn:Et; [|inv E; split; assumption].
+    destruct (stash_take_some _ _ _ _ Et) as (Hin & Hsub & _).
+    destruct (in_session_fix_msg_in s m) as [s1 n1] eqn:Ei.
+    pose proof (in_session_all_ok s m s1 n1 Ei Hs (Hl _ _ Hin)) as H1.
+    pose proof (fr_in_session_fix_msg_in s s m s1 n1 Ei (same_refl s)) as S1.
+    assert (Hl1 : all_ok l1) by (intros k x Hx; apply (Hl k x), Hsub, Hx).
+    destruct (negb (is_logged_on n1)); [inv E; split; assumption|].
+    eapply IH; [exact E | exact Hl1 | rewrite (same_st _ _ S1); exact Hs | exact H1].
+Qed.
+
+Lemma resend_state_all_ok s stash ce re m s' next' :
+  unwrap_pending (s_st s) = SResend stash ce re -> resend_state_fix_msg_in s stash ce re m = (s', next') ->
+  all_ok (stash_of_st (s_st s)) -> m_ok m -> all_ok (stash_of_st next').
+Proof.
+  intros Hu E Ha Hm.
+  assert (Ho : all_ok (olist stash)).
+  { unfold stash_of_st in Ha. rewrite Hu in Ha. destruct stash as [l0|]; [exact Ha | intros k x []]. }
+  unfold resend_state_fix_msg_in in E.
+  destruct (in_session_fix_msg_in s m) as [s1 next] eqn:Ei.
+  pose proof (in_session_all_ok s m s1 next Ei Ha Hm) as H1.
+  pose proof (fr_in_session_fix_msg_in s s m s1 next Ei (same_refl s)) as S1.
+  pose proof (shared_stash_ok s stash ce re m s1 next Hu Ei Ho Hm) as Hsh.
+  destruct (negb (is_logged_on next)); [inv E; exact H1|].
+  fold (olist (shared_stash stash next)) in E.
+  match type of E with context [resend_drain ?f ?a ?b ?c] => destruct (resend_drain f a b c) as [[[s2 l'] next2] still] eqn:Ed end.
+  assert (Hs1 : all_ok (stash_of_st (s_st s1))) by (rewrite (same_st _ _ S1); exact Ha).
+  destruct (drain_all_ok _ _ _ _ _ _ _ _ Ed Hsh Hs1 H1) as [D1 D2].
+  destruct (negb still); [inv E; exact D2|].
+  assert (Hst' : forall c e, all_ok (stash_of_st (SResend (match shared_stash stash next with Some _ => Some l' | None => None end) c e))).
+  { intros c e. rewrite stash_of_resend. destruct (shared_stash stash next); [exact D1 | intros k x []]. }
+  assert (Hreq : forall b e y ny,
+            (match send_resend_request s2 b e with
+             | (s3, SResend _ c0 e0) => (s3, SResend (match shared_stash stash next with Some _ => Some l' | None => None end) c0 e0)
+             | (s3, other) => (s3, other) end) = (y, ny) -> all_ok (stash_of_st ny)).
+  { intros b e y ny Eq. destruct (send_resend_request s2 b e) as [s3 n3] eqn:Er.
+    destruct (send_resend_request_shape _ _ _ _ _ Er) as (_ & c3 & -> & _). inv Eq. apply Hst'. }
+  match type of E with (if ?c then _ else _) = _ => destruct c end; [eapply Hreq; exact E|].
+  destruct (mi_gapfill m) as [| |g]; [| inv E; intros k x [] |].
+  - cbn [andb] in E. destruct (s_tgt s2 <=? re); inv E; [apply Hst' | exact D2].
+  - match type of E with (if ?c then _ else _) = _ => destruct c end; [eapply Hreq; exact E|].
+    destruct (s_tgt s2 <=? re); inv E; [apply Hst' | exact D2].
+Qed.
+
+Lemma state_fix_all_ok : forall st s m s1 next,
+  unwrap_pending st = unwrap_pending (s_st s) -> state_fix_msg_in st s m = (s1, next) ->
+  all_ok (stash_of_st (s_st s)) -> m_ok m -> all_ok (stash_of_st next).
+Proof.
+  induction st as [| | | | | stash c e | j IH]; intros s m s1 next Hu E Ha Hm; cbn [state_fix_msg_in] in E.
+  - inv E. intros k x [].
+  - inv E. intros k x [].
+  - assert (Hemp : stash_of_st next = []).
+    { unfold logon_state_fix_msg_in in E.
+      destruct (negb (beq_bytes (mi_type m) T_LOGON)); [inv E; reflexivity|].
+      destruct (handle_logon s m) as [x [r|]] eqn:Eh; [|inv E; reflexivity].
+      destruct r as [recv ex| | | |]; try (unfold shutdown_with_reason in E; inv E; reflexivity).
+      unfold do_target_too_high in E. destruct (send_resend_request_shape _ _ _ _ _ E) as (_ & c0 & -> & _). reflexivity. }
+    rewrite Hemp. intros k x [].
+  - assert (Hemp : stash_of_st next = []).
+    { unfold logout_state_fix_msg_in in E. destruct (in_session_fix_msg_in s m) as [x nx]. destruct nx; inv E; reflexivity. }
+    rewrite Hemp. intros k x [].
+  - eapply in_session_all_ok; eassumption.
+  - cbn [unwrap_pending] in Hu. eapply resend_state_all_ok; [symmetry; exact Hu | eassumption..].
+  - eapply IH; [exact Hu | eassumption..].
+Qed.
+
+Definition buf_ok (l : list (option minput)) : Prop := forall mm, In (Some mm) l -> m_ok mm.
+
+Section Drain.
+Variable s0 : sess.
+(* what is carried through the drain: the configuration and the kept / buffered messages allow no callback outside P *)
+Definition Dn (x : sess) : Prop :=
+  cfg_ok (s_cfg x) /\ all_ok (stash_of_st (s_st x)) /\ buf_ok (s_in_buf x) /\ Ncb s0 x.
+
+Lemma dn_not_connected_stash next : is_connected next = false -> all_ok (stash_of_st next).
+Proof. intros H. rewrite (stash_of_not_resend next (not_connected_not_resend next H)). intros k x []. Qed.
+
+Lemma dn_disconnect_now x : Dn x -> Dn (disconnect_now x).
+Proof.
+  intros (Hc & Ha & Hb & H). split; [|split; [|split]].
+  - unfold disconnect_now. cbv zeta. cbn [upd_chan s_cfg].
+    repeat match goal with |- context [if ?c then _ else _] => destruct c end; exact Hc.
+  - unfold disconnect_now. cbv zeta. cbn [upd_chan s_st].
+    repeat match goal with |- context [if ?c then _ else _] => destruct c end; exact Ha.
+  - intros mm [].
+  - apply ncb_disconnect_now; assumption.
+Qed.
+
+Lemma dn_set_state_with dr s1 next : (forall y, Dn y -> Dn (dr y)) -> Dn s1 -> all_ok (stash_of_st next) ->
+  Dn (set_state_with dr s1 next).
+Proof.
+  intros Hdr H1 Hn. unfold set_state_with.
+  assert (Hfin : forall y, Dn y -> Dn (upd_st (if s_pending_stop y then upd_flags y (s_sent_reset y) (s_hb y) true true else y) next)).
+  { intros y (Hc & _ & Hb & H). destruct (s_pending_stop y); (split; [exact Hc | split; [exact Hn | split; [exact Hb | exact H]]]). }
+  destruct (negb (is_connected next)).
+  - apply Hfin. destruct (is_connected (s_st s1)) eqn:Ec; [|exact H1].
+    rewrite hd_unfold, Ec. cbn [andb]. pose proof (Hdr s1 H1) as H0.
+    destruct (negb (is_connected (s_st (dr s1)))); [exact H0 | apply dn_disconnect_now; exact H0].
+  - destruct H1 as (Hc & _ & Hb & H). split; [exact Hc | split; [exact Hn | split; [exact Hb | exact H]]].
+Qed.
+
+Lemma dn_incoming_with dr x m : (forall y, Dn y -> Dn (dr y)) -> Dn x -> (forall mm, m = Some mm -> m_ok mm) ->
+  Dn (incoming_with dr x m).
+Proof.
+  intros Hdr Hx Hm. unfold incoming_with.
+  destruct (negb (is_connected (s_st x))); [exact Hx|]. destruct m as [mm|]; [|exact Hx].
+  destruct (state_fix_msg_in (s_st x) x mm) as [s1 next] eqn:E.
+  pose proof (fr_state_fix_msg_in x _ _ _ _ _ E (same_refl x)) as S1.
+  destruct Hx as (Hc & Ha & Hb & H).
+  apply dn_set_state_with; [exact Hdr | |].
+  - split; [rewrite (same_cfg _ _ S1); exact Hc|]. split; [rewrite (same_st _ _ S1); exact Ha|].
+    split; [rewrite (same_buf _ _ S1); exact Hb|].
+    eapply ncb_state_fix_msg_in; [reflexivity | exact E | exact Ha | exact (Hm mm eq_refl) | exact Hc | exact H].
+  - eapply state_fix_all_ok; [reflexivity | exact E | exact Ha | exact (Hm mm eq_refl)].
+Qed.
+
+Lemma dn_drain_message_in : forall fuel x, Dn x -> Dn (drain_message_in fuel x).
+Proof.
+  induction fuel as [|f IH]; intros x Hx; cbn [drain_message_in]; [exact Hx|].
+  destruct (negb (s_in_open x)); [exact Hx|]. destruct (s_in_buf x) as [|m r] eqn:Eb; [exact Hx|].
+  destruct Hx as (Hc & Ha & Hb & H). rewrite Eb in Hb.
+  apply IH. apply dn_incoming_with; [exact IH | |].
+  - split; [exact Hc | split; [exact Ha | split; [|exact H]]]. intros mm Hmm. apply Hb. right. exact Hmm.
+  - intros mm ->. apply Hb. left. reflexivity.
+Qed.
+
+Lemma dn_drain x : Dn x -> Dn (drain x).
+Proof. intros H. unfold drain. apply dn_drain_message_in. exact H. Qed.
+
+Lemma dn_set_state s1 next : Dn s1 -> all_ok (stash_of_st next) -> Dn (set_state s1 next).
+Proof. intros H Hn. unfold set_state. apply dn_set_state_with; [exact dn_drain | exact H | exact Hn]. Qed.
+
+Lemma dn_incoming x m : Dn x -> (forall mm, m = Some mm -> m_ok mm) -> Dn (incoming x m).
+Proof. intros H Hm. unfold incoming. apply dn_incoming_with; [exact dn_drain | exact H | exact Hm]. Qed.
+
+Lemma dn_same x y : Same x y -> Ncb s0 y -> Dn x -> Dn y.
+Proof.
+  intros S Hy (Hc & Ha & Hb & _). split; [rewrite (same_cfg _ _ S); exact Hc|]. split; [rewrite (same_st _ _ S); exact Ha|].
+  split; [rewrite (same_buf _ _ S); exact Hb | exact Hy].
+Qed.
+
+(* one event, whatever is buffered: every buffered frame is in the class m_ok *)
+Lemma ncb_step_event_buffered s e : cfg_ok (s_cfg s) -> all_ok (stash_of_st (s_st s)) -> buf_ok (s_in_buf s) -> ev_ok e ->
+  Ncb s0 s -> Ncb s0 (step_event s e).
+Proof.
+  intros Hc Ha Hb He H.
+  assert (Hd : Dn s) by (split; [exact Hc | split; [exact Ha | split; [exact Hb | exact H]]]).
+  assert (Hout : forall y, Dn y -> Ncb s0 y) by (intros y (_ & _ & _ & Hy); exact Hy).
+  destruct e; cbn [step_event ev_ok] in *.
+  - apply ncb_connect; assumption.
+  - destruct (_ && _); ncb_go.
+  - destruct (negb (s_in_open s)); [exact H|]. destruct (s_in_buf s) as [|m r] eqn:Eb; [exact H|].
+    apply Hout. apply dn_incoming.
+    + split; [exact Hc | split; [exact Ha | split; [|exact H]]]. intros mm Hmm. apply Hb. right. exact Hmm.
+    + intros mm ->. apply Hb. left. reflexivity.
+  - apply Hout. apply dn_incoming; [exact Hd|]. intros mm Hmm. inv Hmm. exact He.
+  - apply Hout. apply dn_incoming; [exact Hd|]. intros mm Hmm. discriminate Hmm.
+  - destruct (is_connected (s_st s)); [|exact H]. apply Hout. apply dn_set_state; [exact Hd | intros k x []].
+  - destruct (state_timeout (s_st s) s e) as [s1 next] eqn:E.
+    pose proof (fr_state_timeout s _ _ _ _ _ E (same_refl s)) as S1.
+    apply Hout. apply dn_set_state.
+    + apply (dn_same s s1 S1); [eapply ncb_state_timeout; eassumption | exact Hd].
+    + destruct (timeout_stash _ _ _ _ _ E) as [Hs|Hs]; rewrite Hs; [exact Ha | intros k x []].
+  - apply ncb_queue_for_send; assumption.
+  - ncb_go.
+  - match goal with |- context [state_stop ?a ?b] => destruct (state_stop a b) as [s1 next] eqn:E end.
+    match type of E with state_stop _ ?c0 = _ =>
+      pose proof (fr_state_stop c0 _ _ _ _ E (same_refl c0)) as S1;
+      assert (Hd0 : Dn c0) by (split; [exact Hc | split; [exact Ha | split; [exact Hb | ncb_go]]]) end.
+    apply Hout. apply dn_set_state.
+    + eapply (dn_same _ s1 S1); [eapply ncb_state_stop; [exact E | ncb_go] | exact Hd0].
+    + rewrite (stash_of_not_resend next (state_stop_not_resend _ _ _ _ E)). intros k x [].
+  - destruct (is_connected (s_st s)); [|exact H]. apply ncb_send_logon; [left; exact He | exact H].
+Qed.
+End Drain.
 
 End NewCb.
